@@ -185,7 +185,7 @@ def short(v):
 
 
 def judge_basic_text(sh, rng):
-    klass = rng.pick(['json', 'json', 'html', 'plain', 'json-padded', 'broken-json', 'bracketed', 'dontcare'])
+    klass = rng.pick(['json', 'json', 'html', 'plain', 'json-padded', 'broken-json', 'bracketed', 'dontcare', 'json-extreme'])
     as_bytes = rng.chance(0.3)
     if klass == 'json':
         text = json.dumps(rng.pick([json_native(rng), {'a': json_native(rng)}, [json_native(rng)]]) if rng.chance(0.8) else rng.pick([{}, []]),
@@ -203,6 +203,13 @@ def judge_basic_text(sh, rng):
         text, want = rng.pick(TEXTS_HTML), 'text/html'
     elif klass == 'plain':
         text, want = rng.pick(TEXTS_PLAIN), 'text/plain'
+    elif klass == 'json-extreme':
+        # serialized JSON that a parser with resource limits chokes on (recursion depth, CPython's int digit limit): it
+        # is JSON by its grammar all the same, and rendering it is copying bytes
+        depth, digits = rng.pick([1500, 5000, 20000]), rng.pick([4301, 5000, 12000])
+        text = rng.pick(['[' * depth + ']' * depth, '{"a":' * depth + '1' + '}' * depth, '[' + '7' * digits + ']',
+                         '{"n": -' + '9' * digits + ', "s": "x"}', '[1e' + '9' * 400 + ']'])
+        want = 'application/json'
     elif klass == 'json-padded':
         text, want = rng.pick(TEXTS_JSON_PADDED), 'application/json'
         if rng.chance(0.4):
@@ -223,6 +230,8 @@ def judge_basic_text(sh, rng):
         text, want = rng.pick(TEXTS_BRACKETED), 'text/plain'
     else:
         text, want = rng.pick(TEXTS_DONTCARE), None
+    if klass == 'json-extreme':
+        sh.hit('basic:text-json-extreme')
     assert klass not in ('json', 'json-padded') or is_json_container_text(text), text
     assert klass not in ('broken-json', 'bracketed') or not is_json_container_text(text), text
     value = text.encode('utf8') if as_bytes else text
@@ -231,7 +240,7 @@ def judge_basic_text(sh, rng):
     ex = render('/basic', value, query, accept)
     case = {'renderer': 'basic', 'value': short(value), 'query': query, 'accept': accept}
     sh.case(case, nontrivial=klass != 'plain' or not text.isascii(), klass='basic-text:' + klass, sample=dict(case, status=ex.status, ctype=mime(ex)))
-    sh.hit('basic:bytes' if as_bytes else 'basic:text-' + {'dontcare': 'plain', 'json-padded': 'json', 'bracketed': 'plain'}.get(klass, klass))
+    sh.hit('basic:bytes' if as_bytes else 'basic:text-' + {'dontcare': 'plain', 'json-padded': 'json', 'bracketed': 'plain', 'json-extreme': 'json'}.get(klass, klass))
     sh.hit('basic:text-class-' + klass)
     if ex.exc is not None or ex.status != 200:
         sh.violation('C17/basic-not-200:text', 'render_basic(%s) -> status %s %s %r' % (short(value), ex.status, probe.safe_repr(ex.exc) if ex.exc else '', ex.body[:160]), case)
